@@ -1264,7 +1264,7 @@ func (r *Resolver) addSubscription(triggerID uint64, add *addSubscription) error
 			return
 		}
 
-		r.markTriggerInitialized(triggerID)
+		r.markTriggerInitialized(triggerID, trig)
 
 		if r.options.Debug {
 			fmt.Printf("resolver:trigger:started:%d\n", triggerID)
@@ -1281,10 +1281,13 @@ func (r *Resolver) getTrigger(id uint64) (*trigger, bool) {
 }
 
 // markTriggerInitialized marks a trigger as initialized and reports it.
-func (r *Resolver) markTriggerInitialized(triggerID uint64) {
+func (r *Resolver) markTriggerInitialized(triggerID uint64, trig *trigger) {
 	verifhook.Yield("trigger.init.before_store", triggerID)
-	trig, ok := r.getTrigger(triggerID)
-	if !ok {
+	// Under r.mu, and only while this very trigger is still registered: every removal path
+	// reads initialized under r.mu to decide about TriggerCountDec, so Inc and Dec stay paired.
+	r.mu.Lock()
+	defer r.mu.Unlock()
+	if cur, ok := r.triggers[triggerID]; !ok || cur != trig {
 		return
 	}
 	trig.initialized.Store(true)
